@@ -168,6 +168,8 @@ check("C10", "log damage is contained", [
        "4 record boundaries x 5 cut offsets"),
     ob("VerifC10_FlipHeaderOfFragment", "pkg/engine/storage", "one byte of the 7-byte header (checksum, length, type) of the FIRST, MIDDLE or LAST record of a fragmented entry (33 KB value) replaced by a symbolic different value: open succeeds, no panic, the entry before it recovered, the fragmented entry exact or absent, the log files are not set aside",
        "3 records x 7 header bytes; every replacement value, except length bytes: 4 representatives", "every replacement value of every header byte", q={"budget_s": 300}, t={"budget_s": 1200}),
+    ob("VerifC10_FlipTypeOfFragmentCraftedValue", "pkg/engine/storage", "the record-type byte (not under the record checksum) of the LAST record of a fragmented entry replaced by a symbolic different value, while the part of the user's value carried by that record starts with 14 symbolic bytes (the solver may shape them like a complete log entry): open succeeds, the earlier entry is recovered unaltered, the fragmented entry is exact or absent, no key that was never written exists",
+       "33 KB value, 14 free value bytes at the start of the last record (crafted key length <= 2), every replacement value of the type byte"),
 ], [SIMFS, CLOCK, HASH, LOG, TIERA, "CRC-32 single-byte-error axiom instances are justified by lemmas/crc32_step.smt2 (step injective in state and in byte; discharged on every run) plus a three-line induction over the stream on paper"],
    ["multi-byte damage", "checksum collisions other than single-byte errors (ideal-checksum assumption)"], lemmas=["crc32_step"])
 
